@@ -853,7 +853,14 @@ class TraceSim(enginemod.Engine):
             'shards with event timestamps far older, just older, just '
             'younger than the expiry (down to 20 us) and brand new, finished '
             'records whose mtimes straddle the expiry by 2 ms, server events;'
-            ' batch sizes 1-7, max history 1-4.  The cron loop body (8 '
+            ' batch sizes 1-7, max history 1-4; heavy tail decided by the '
+            'seed: 1 run in 14 with a batch size in 10001..20000 and 1 in 12 '
+            'at 100, 1000, 1024, 4096, 5000, 8192 or 9999, with enough '
+            'archivable records of one kind (one `bulk` op writing them '
+            'straight into the tree) to fill at least one batch - in those '
+            'runs the crash points are a sample (the create of the biggest '
+            'batch before/after it exists, the middle of its deletes, random '
+            'points), not every write.  The cron loop body (8 '
             'calls) runs once fault-free with the oracle after every call; '
             'then the pass is re-executed once per ZooKeeper write k of it '
             'and applied in (no, yes) with a crash there (on a copy of the '
